@@ -79,6 +79,9 @@ func Load(repoDir string, rel []string, whole bool, overlay map[string][]byte) (
 	})
 	for _, pk := range pkgs {
 		p.Loaded = append(p.Loaded, pk.PkgPath)
+		if whole && len(pk.GoFiles) == 0 && len(pk.Errors) == 0 {
+			continue // a directory with test files only
+		}
 		if pk.Types == nil || len(pk.Syntax) == 0 {
 			p.LoadErr = append(p.LoadErr, "package without types/syntax: "+pk.PkgPath)
 		}
